@@ -1647,7 +1647,12 @@ impl IQLEngine {
 
             // Create fresh CodeGenerator for each rule (avoids timely state issues)
             let mut codegen = CodeGenerator::new();
-            codegen.set_max_result_rows(self.max_result_rows);
+            // The row limit truncates the ANSWER only. Truncating an intermediate relation
+            // would change what later rules derive from it (a negation over a truncated
+            // relation even yields tuples that are not in the unlimited answer).
+            if execution_order.last() == Some(&i) {
+                codegen.set_max_result_rows(self.max_result_rows);
+            }
             // Set per-rule semiring type from boolean specialization
             let semiring = self
                 .semiring_annotations
